@@ -469,8 +469,18 @@ func runConcPair(tw *traceWriter, pair []string, rep int) {
 			resp.Write([]byte("changed"))
 		}))
 		c.Add(adm)
+		// a dynamic WebService with a single route: removing it (twice, or by two goroutines) leaves none
+		only := new(restful.WebService).Path("/only")
+		only.SetDynamicRoutes(true)
+		only.Route(only.GET("").To(func(req *restful.Request, resp *restful.Response) { resp.Write([]byte("only")) }))
+		c.Add(only)
 		do := func(kind string) {
 			switch kind {
+			case "removeOnly":
+				for _, rt := range only.Routes() {
+					only.RemoveRoute(rt.Path, rt.Method)
+				}
+				only.RemoveRoute("/only", "GET") // once more, when none is left
 			case "handlerChanges":
 				regProbe(c, "S", "/adm")
 			case "optionsCurly":
@@ -494,13 +504,21 @@ func runConcPair(tw *traceWriter, pair []string, rep int) {
 			}
 		}
 		var wg sync.WaitGroup
+		var pairPanic atomic.Value
+		defer func() {
+			if pv, ok := pairPanic.Load().(string); ok {
+				tw.emit(map[string]interface{}{"e": "cpanic", "round": -1, "pv": pv})
+			}
+		}()
 		start := make(chan struct{})
 		for _, kind := range pair {
 			wg.Add(1)
 			go func(kind string) {
 				defer wg.Done()
 				<-start
-				safely(func() { do(kind) })
+				if pv := safely(func() { do(kind) }); pv != "" {
+					pairPanic.Store(kind + ": " + pv)
+				}
 			}(kind)
 		}
 		close(start)
@@ -529,7 +547,7 @@ func runConc(planPath, outPath string, seed int64) {
 	// the conflicting pairs TLC found, and two more kinds of change "while requests are served": a handler that
 	// changes its own container, and the OPTIONS filter (which walks the registry again) against Add / Remove
 	pairs := append(append([][]string{}, p.Pairs...), []string{"handlerChanges", "serveCurly"}, []string{"handlerChanges", "handlerChanges"},
-		[]string{"optionsCurly", "add"}, []string{"optionsCurly", "remove"})
+		[]string{"optionsCurly", "add"}, []string{"optionsCurly", "remove"}, []string{"removeOnly", "removeOnly"}, []string{"removeOnly", "serveCurly"})
 	for _, pair := range pairs {
 		if !stuckOnce {
 			runConcPair(tw, pair, 30)
